@@ -4,7 +4,7 @@ use super::nm::run_logged;
 use crate::common::*;
 use spdcalc::dim::ucum::{K, M, RAD, S};
 use spdcalc::prelude::*;
-use spdcalc::{delta_k, optimum_poling_period, CrystalSetup, PeriodicPoling, Sign};
+use spdcalc::{delta_k, optimum_poling_period, CrystalSetup, PeriodicPoling, Sign, SPDC};
 
 /// z component of Δk with the matching optimum idler (as the crate's own closures compute it)
 pub fn dkz(signal: &SignalBeam, pump: &PumpBeam, cs: &CrystalSetup, pp: &PeriodicPoling) -> f64 {
@@ -160,7 +160,7 @@ fn period_case(ctx: &mut Ctx, cs: &CrystalSetup, lp: f64, ls: f64, ths: f64, phs
   }
 }
 
-fn theta_case(ctx: &mut Ctx, cs0: &CrystalSetup, lp: f64, ls: f64) {
+fn theta_case(ctx: &mut Ctx, spdc0: &SPDC, cs0: &CrystalSetup, lp: f64, ls: f64, routes: bool) {
   let (signal, pump) = mk_beams(cs0.pm_type, lp, ls, 0.0, 0.0, 100e-6);
   let what = setup_detail(cs0, lp, ls, 0.0, 0.0);
   let len = *(cs0.length / M);
@@ -203,52 +203,110 @@ fn theta_case(ctx: &mut Ctx, cs0: &CrystalSetup, lp: f64, ls: f64) {
     }
     prev = cur;
   }
-  match bracket {
-    None => ctx.count("theta/scan/no-sign-change"),
-    Some((a, b)) => {
-      ctx.count("theta/scan/sign-change");
-      match r {
-        None => ctx.s("C04.theta", false, "theta/panic", &what),
-        Some(th) => {
-          let in_range = (0.0..=std::f64::consts::FRAC_PI_2).contains(&th);
-          let d = at(th);
-          let phase = d.abs() * len / 2.0;
-          let ok = in_range && phase < 1e-3;
-          let kind = if ok {
-            "theta/auto"
-          } else if !in_range {
-            "theta/auto/out-of-range"
-          } else if th < 1e-3 {
-            "theta/auto/stuck-at-lower-bound"
-          } else if th > std::f64::consts::FRAC_PI_2 - 1e-3 {
-            "theta/auto/stuck-at-upper-bound"
-          } else {
-            "theta/auto/not-phasematched"
-          };
-          ctx.s(
-            "C04.theta",
-            ok,
-            kind,
-            &format!(
-              "{} auto_deg={:e} dkz={:e} half_phase={:e} root_lo_deg={:.3} root_hi_deg={:.3} lp_nm={:.3} ls_nm={:.3} li_nm={:.3} long_nm={:.3}",
-              what,
-              th.to_degrees(),
-              d,
-              phase,
-              a.to_degrees(),
-              b.to_degrees(),
-              lp * 1e9,
-              ls * 1e9,
-              ls * lp / (ls - lp) * 1e9,
-              ls.max(ls * lp / (ls - lp)) * 1e9
-            ),
-          );
+  let (ra, rb) = match bracket {
+    None => {
+      ctx.count("theta/scan/no-sign-change");
+      return;
+    }
+    Some(x) => x,
+  };
+  ctx.count("theta/scan/sign-change");
+  let tail = format!(
+    "root_lo_deg={:.3} root_hi_deg={:.3} lp_nm={:.3} ls_nm={:.3} li_nm={:.3} long_nm={:.3} prior_deg={:.4}",
+    ra.to_degrees(),
+    rb.to_degrees(),
+    lp * 1e9,
+    ls * 1e9,
+    ls * lp / (ls - lp) * 1e9,
+    ls.max(ls * lp / (ls - lp)) * 1e9,
+    (*(cs0.theta / RAD)).to_degrees()
+  );
+  let step = std::f64::consts::FRAC_PI_2 / ((npts - 1) as f64);
+  // the statement's clause for one route's result
+  let mut judge = |ctx: &mut Ctx, route: &str, r: Option<f64>| match r {
+    None => ctx.s("C04.theta", false, &format!("theta/{}/panic", route), &format!("{} {}", what, tail)),
+    Some(th) => {
+      let in_range = (0.0..=std::f64::consts::FRAC_PI_2).contains(&th);
+      let d = at(th);
+      let phase = d.abs() * len / 2.0;
+      let ok = in_range && phase < 1e-3;
+      let near_root = th >= ra - step && th <= rb + step;
+      let kind = if ok {
+        format!("theta/{}", route)
+      } else if !in_range {
+        format!("theta/{}/out-of-range", route)
+      } else if th < 1e-3 {
+        format!("theta/{}/stuck-at-lower-bound", route)
+      } else if th > std::f64::consts::FRAC_PI_2 - 1e-3 {
+        format!("theta/{}/stuck-at-upper-bound", route)
+      } else if near_root {
+        // the simplex stopped within one scan step of the root with the two vertex costs equal but not small
+        format!("theta/{}/stopped-next-to-root", route)
+      } else {
+        format!("theta/{}/not-phasematched", route)
+      };
+      ctx.count(&format!("theta/route/{}", route));
+      ctx.s(
+        "C04.theta",
+        ok,
+        &kind,
+        &format!("{} auto_deg={:e} dkz={:e} half_phase={:e} {}", what, th.to_degrees(), d, phase, tail),
+      );
+    }
+  };
+  judge(ctx, "auto", r);
+  // history independence: the coded start simplex is fixed, so the prior crystal angle must not matter
+  let reference = {
+    let mut c = cs0.clone();
+    c.theta = 0. * RAD;
+    guard(|| *(c.optimum_theta(&signal, &pump) / RAD))
+  };
+  let mut indep = |ctx: &mut Ctx, route: &str, r: Option<f64>| {
+    let same = match (r, reference) {
+      (Some(x), Some(y)) => x.to_bits() == y.to_bits(),
+      (None, None) => true,
+      _ => false,
+    };
+    ctx.s(
+      "C04.theta",
+      same,
+      &format!("theta/{}/{}", route, if same { "history-independent" } else { "depends-on-prior-angle" }),
+      &format!("{} got_deg={:?} from_prior_0_deg={:?} {}", what, r.map(f64::to_degrees), reference.map(f64::to_degrees), tail),
+    );
+  };
+  indep(ctx, "auto", r);
+  if routes {
+    // the other routes that auto-calculate the crystal angle, from the same prior angle
+    let ra1 = guard(|| {
+      let mut c = cs0.clone();
+      c.assign_optimum_theta(&signal, &pump);
+      *(c.theta / RAD)
+    });
+    judge(ctx, "assign_optimum_theta", ra1);
+    indep(ctx, "assign_optimum_theta", ra1);
+    let mut spdc = spdc0.clone();
+    spdc.crystal_setup = cs0.clone();
+    spdc.signal = signal.clone();
+    spdc.pump = pump.clone();
+    spdc.pp = PeriodicPoling::Off;
+    if let Ok(i) = IdlerBeam::try_new_optimum(&spdc.signal, &spdc.pump, &spdc.crystal_setup, &spdc.pp) {
+      spdc.idler = i;
+      let s1 = spdc.clone();
+      let rw = guard(move || *(s1.with_optimum_crystal_theta().crystal_setup.theta / RAD));
+      judge(ctx, "with_optimum_crystal_theta", rw);
+      indep(ctx, "with_optimum_crystal_theta", rw);
+      let s2 = spdc.clone();
+      match guard(move || s2.try_as_optimum().map(|s| *(s.crystal_setup.theta / RAD))) {
+        Some(Ok(t)) => {
+          judge(ctx, "try_as_optimum", Some(t));
+          indep(ctx, "try_as_optimum", Some(t));
         }
+        Some(Err(_)) => ctx.count("theta/route/try_as_optimum/err"),
+        None => judge(ctx, "try_as_optimum", None),
       }
     }
   }
 }
-
 
 /// the statement through the configuration route: `"poling_period_um": "auto"` / `"theta_deg": "auto"`
 fn config_case(ctx: &mut Ctx, crystal: &CrystalType, pm: PMType, cphi_deg: f64, ctheta_deg: f64, len_um: f64, celsius: f64, lp_nm: f64, ls_nm: f64, ths_deg: f64, phs_deg: f64, auto_theta: bool) {
@@ -301,10 +359,13 @@ fn config_case(ctx: &mut Ctx, crystal: &CrystalType, pm: PMType, cphi_deg: f64, 
         };
         let mut prev = at(0.0);
         let mut found = false;
+        let mut root = (0.0, 0.0);
         for k in 1..2000 {
-          let cur = at(std::f64::consts::FRAC_PI_2 * (k as f64) / 1999.0);
+          let th = std::f64::consts::FRAC_PI_2 * (k as f64) / 1999.0;
+          let cur = at(th);
           if prev == 0.0 || (prev < 0.0) != (cur < 0.0) {
             found = true;
+            root = (std::f64::consts::FRAC_PI_2 * ((k - 1) as f64) / 1999.0, th);
             break;
           }
           prev = cur;
@@ -316,7 +377,14 @@ fn config_case(ctx: &mut Ctx, crystal: &CrystalType, pm: PMType, cphi_deg: f64, 
         if found {
           ctx.count("config/theta/matchable");
           let ok = (0.0..=std::f64::consts::FRAC_PI_2).contains(&got) && phase < 1e-3 && spdc.pp == PeriodicPoling::Off;
-          ctx.s("C04.config", ok, "config/theta-statement", &format!("{} auto_deg={:e} half_phase={:e}", what, got.to_degrees(), phase));
+          let step = std::f64::consts::FRAC_PI_2 / 1999.0;
+          let near_root = got >= root.0 - step && got <= root.1 + step;
+          ctx.s(
+            "C04.config",
+            ok,
+            if ok || !near_root { "config/theta-statement" } else { "config/theta-statement/stopped-next-to-root" },
+            &format!("{} auto_deg={:e} half_phase={:e} root_lo_deg={:.3} root_hi_deg={:.3}", what, got.to_degrees(), phase, root.0.to_degrees(), root.1.to_degrees()),
+          );
         } else {
           ctx.count("config/theta/unmatchable");
         }
@@ -340,6 +408,7 @@ fn config_case(ctx: &mut Ctx, crystal: &CrystalType, pm: PMType, cphi_deg: f64, 
 }
 
 pub fn run(ctx: &mut Ctx) {
+  let spdc0 = SPDC::default();
   let mut cr = crystals();
   let mode = ctx.extra.first().cloned().unwrap_or("all".into());
   // optional second argument: comma-separated crystal ids (region mapping / replays)
@@ -478,9 +547,12 @@ pub fn run(ctx: &mut Ctx) {
     // the design-phase observation D3 and the test-suite's BBO example
     {
       let cs = mk_setup(CrystalType::BiBO_1, PMType::Type2_e_eo, 0.0, 0.0, 2e-3, 20.0, false);
-      theta_case(ctx, &cs, 775e-9, 1550e-9);
-      let cs = mk_setup(CrystalType::BBO_1, PMType::Type2_e_eo, 0.0, 0.0, 2e-3, 20.0, false);
-      theta_case(ctx, &cs, 775e-9, 1550e-9);
+      theta_case(ctx, &spdc0, &cs, 775e-9, 1550e-9, true);
+      // the test-suite's BBO example from flipped / tilted prior orientations
+      for prior_deg in [0.0f64, 180.0, 160.0, -75.0, -179.0, 90.0, -3.0] {
+        let cs = mk_setup(CrystalType::BBO_1, PMType::Type2_e_eo, prior_deg.to_radians(), 0.0, 2e-3, 20.0, false);
+        theta_case(ctx, &spdc0, &cs, 775e-9, 1550e-9, true);
+      }
     }
     let pms = [PMType::Type1_e_oo, PMType::Type2_e_eo, PMType::Type2_e_oe];
     for _ in 0..n_theta {
@@ -493,9 +565,18 @@ pub fn run(ctx: &mut Ctx) {
       let celsius = ctx.rng.range(0.0, 100.0);
       let length = ctx.rng.range(1e-3, 30e-3);
       let (lp, ls) = gen_wavelengths(&mut ctx.rng, &crystal);
-      let start = ctx.rng.range(0.0, std::f64::consts::FRAC_PI_2);
+      // the PRIOR crystal angle is arbitrary in (−180°, 180°]
+      let start = match ctx.rng.below(8) {
+        0 => std::f64::consts::PI,
+        1 => 160f64.to_radians(),
+        2 => (-75f64).to_radians(),
+        3 => (-179f64).to_radians(),
+        4 => 0.0,
+        _ => ctx.rng.range(-std::f64::consts::PI, std::f64::consts::PI),
+      };
       let cs = mk_setup(crystal, pm, start, cphi, length, celsius, false);
-      theta_case(ctx, &cs, lp, ls);
+      let routes = ctx.rng.below(3) == 0;
+      theta_case(ctx, &spdc0, &cs, lp, ls, routes);
     }
   }
   let _ = S;
